@@ -32,6 +32,7 @@ fn main() -> ExitCode {
         "C02" => rosu_verif::c02::run(tier, seed, only),
         "C03" => rosu_verif::c03::run(tier, seed, only),
         "C04" => rosu_verif::c04::run(tier, seed, only),
+        "C05" => rosu_verif::c05::run(tier, seed, only),
         "C06" => rosu_verif::c06::run(tier, seed, only),
         "C07" => rosu_verif::c07::run(tier, seed, only),
         "C08" => rosu_verif::c08::run(tier, seed, only),
